@@ -467,7 +467,11 @@ def check_C15(ctx):
     longer = [l for l in open(hist + ".b")]
     step = max(1, len(longer) // budget)
     with open(hist, "w") as out:
-        for line in list(open(hist + ".a")) + struct + longer[::step]:
+        full = list(open(hist + ".a"))
+        if len(full) > 250000:
+            # thorough tier, length 4 with every unit kind: a seed-keyed sample keeps the run within half an hour
+            full = [l for l in full if (zlib.crc32(l.encode()) + ctx.seed) % max(1, len(full) // 250000) == 0]
+        for line in full + struct + longer[::step]:
             if line not in seen:
                 seen.add(line)
                 out.write(line)
